@@ -62,7 +62,7 @@ def translate() -> dict:
         status = json.loads(out[out.index("{"):])
     except Exception:  # noqa: BLE001
         status = {k: {"ok": False, "error": "translator crashed: " + out[-400:]} for k in
-                  ("Unicode", "Regexes", "Tables", "Imports", "State", "Classes", "Leaf")}
+                  ("Unicode", "Regexes", "Tables", "Imports", "State", "Classes", "Leaf", "Imp")}
     (LEAN / ".gen_status.json").write_text(json.dumps(status, indent=1))
     return status
 
